@@ -2037,6 +2037,38 @@ fn printed_nesting(tree: &SExp) -> usize {
     max + lts / 2
 }
 
+/// per-tree time budget of the random `template-args` trees (milliseconds for one print + parse)
+const TARG_PARSE_BUDGET_MS: u64 = 1500;
+
+/// trial run: print the tree and read the text back on a helper thread; `false` when that does not finish within `ms`
+/// (the helper thread is abandoned — it ends with the process)
+fn reads_within_budget(tree: &SExp, ms: u64) -> bool {
+    let e = match de_expr(tree) {
+        Some(e) => e,
+        None => return true,
+    };
+    let mut module = match lex_parse(Ctx::Ret.template()) {
+        Ok(m) => m,
+        Err(_) => return true,
+    };
+    if put(&mut module, Ctx::Ret, e).is_none() {
+        return true;
+    }
+    let text = match guard(|| rssl_formatter::format(&module, rssl_formatter::Target::Hlsl)) {
+        Ok(Ok(t)) => t,
+        _ => return true,
+    };
+    let (tx, rx) = std::sync::mpsc::channel();
+    let spawned = std::thread::Builder::new().stack_size(512 << 20).spawn(move || {
+        let _ = guard(|| lex_parse(&text).is_ok());
+        let _ = tx.send(());
+    });
+    if spawned.is_err() {
+        return true;
+    }
+    rx.recv_timeout(std::time::Duration::from_millis(ms)).is_ok()
+}
+
 /// the shape of the known misreading `a < b … > (c)`: the tree has a `<` and a `>` operator, none of them inside an
 /// expression-or-type position, and its text has a lone `>` directly in front of `(`
 fn lt_gt_paren_shape(t: &SExp, text: &str) -> bool {
@@ -2906,6 +2938,7 @@ pub fn run(args: &Args, out: &mut Out) {
             run_request(&line, out, &mut st);
         }
     }
+    let mut dropped_slow = 0u64;
     for i in 0..(if thorough { 30000 } else { 3000 }) {
         let d = 3 + (i % 4) as usize;
         let mut t;
@@ -2926,6 +2959,12 @@ pub fn run(args: &Args, out: &mut Out) {
         if printed_nesting(&t) > MAX_TARG_NESTING {
             continue;
         }
+        // hard budget: the printed text must read back within TARG_PARSE_BUDGET_MS in a trial run, or the tree is never
+        // emitted as a request (so neither this harness nor the model ever meets a tree that takes minutes)
+        if !reads_within_budget(&t, TARG_PARSE_BUDGET_MS) {
+            dropped_slow += 1;
+            continue;
+        }
         if std::env::var_os("VERIF_C09_TRACE").is_some() {
             eprintln!("nesting {}", printed_nesting(&t));
         }
@@ -2934,6 +2973,7 @@ pub fn run(args: &Args, out: &mut Out) {
         run_request(&line, out, &mut st);
     }
     out.stat(&st.json("template-args"));
+    out.stat(&format!("{{\"stream\":\"template-args-budget\",\"dropped_over_parse_budget\":{}}}", dropped_slow));
     // stream 3b'': the known template misreading in argument lists, deliberately (not left to the seed): two or more
     // entries of a call argument list / a comma expression in a subscript, an earlier one with a bare `<`, a later one with
     // a bare `>` in front of `(` — `f(a < b, c > (d & e))` reads back as `f<b, c>(d & e)`-like with another argument count
